@@ -88,6 +88,7 @@ def _cpack(what, name, pz, h0, sp, zp, s0, z0, s1, z1, early, target):
         w.put_loose(0, s0)
         w.put_loose(1, s1)
         objs = objs_map(w, [(0, s0), (1, s1), (2, sp)])
+        before = w.image()
         w.c.pack_all_loose(compress=_mode(name))
         after = w.image()
         if what == 'reach':
@@ -97,6 +98,8 @@ def _cpack(what, name, pz, h0, sp, zp, s0, z0, s1, z1, early, target):
                     n += 1
             return n < 2
         if not inv_ok(after, w, objs) or len(after.rows()) != 3:
+            return False
+        if not layout_ok(before, after, target):  # C13: the pack switch follows the bytes really written
             return False
         # loose objects are uncompressed: KEEP means "do not compress" for them; obj2 is not touched at all
         if not forms_ok(after, w, name if name != 'keep' else 'no', [(0, s0), (1, s1)], {}):
@@ -172,6 +175,7 @@ def _cdirect(what, h0, s0, z0, s1, z1, s2, z2, dup, early, target, no_holes, rea
         else:
             batch.append((1, s1))
         objs = objs_map(w, [(0, s0), (1, s1), (2, s2)])
+        before = w.image()
         keys = w.c.add_streamed_objects_to_pack([w.stream(i, s) for i, s in batch], compress=True, no_holes=no_holes,
                                                 no_holes_read_twice=read_twice)
         if keys != [w.key(i, s) for i, s in batch]:
@@ -180,6 +184,8 @@ def _cdirect(what, h0, s0, z0, s1, z1, s2, z2, dup, early, target, no_holes, rea
         if what == 'reach':
             return len(after.pack_ids()) < 2
         if not inv_ok(after, w, objs) or len(after.rows()) != 3:
+            return False
+        if not layout_ok(before, after, target):
             return False
         if not forms_ok(after, w, 'yes', [(0, s0), (1, s1), (2, s2)], {}):
             return False
